@@ -396,6 +396,15 @@ pub fn c02_pair(alg: Algorithm, old: &[u8], new: &[u8]) -> Result<Out, String> {
             first = Some((ops, st));
         }
     }
+    {
+        let lo: Vec<crate::instr::Lo> = old.iter().map(|&x| crate::instr::Lo(x as u32)).collect();
+        let tg = crate::instr::tagged(new);
+        let what = "capture_diff with old items Lo(u32), new items Tagged{v,tag} (own Eq finer than Tagged == Lo)";
+        let ops = capture(alg, &lo[..], 0..n, &tg[..], 0..m).map_err(|e| format!("{}: {}", what, e))?;
+        c02_clauses(&ops, old, 0..n, new, 0..m, what)?;
+        check_ratio(&ops, old, new, what)?;
+        transitions += ops.len() as u64;
+    }
     for &(po, pn) in OFFSETS.iter() {
         for mode in 0..2 {
             let (ops, fo, fnw) = cap_embedded(alg, old, new, po, pn, mode)?;
@@ -840,6 +849,19 @@ pub fn c09_pair(alg: Algorithm, old: &[u8], new: &[u8]) -> Result<Out, String> {
             })?;
         }
     }
+    // different element types on the two sides; the new type's own equality is finer than its
+    // equality with old items (every new item carries its own tag), and the diff is defined by
+    // the cross-type equality alone
+    {
+        let lo: Vec<crate::instr::Lo> = old.iter().map(|&x| crate::instr::Lo(x as u32)).collect();
+        let tg = crate::instr::tagged(new);
+        let ops = capture(alg, &lo[..], 0..old.len(), &tg[..], 0..new.len())
+            .map_err(|e| format!("old items Lo(u32), new items Tagged{{v,tag}} (own Eq finer than Tagged == Lo): {}", e))?;
+        validate_ops(&ops, old, 0..old.len(), new, 0..new.len(), false)
+            .and_then(|_| normal_form(&ops, old, new))
+            .map_err(|x| format!("old items Lo(u32), new items Tagged{{v,tag}} (own Eq finer than Tagged == Lo): {} [ops: {:?}]", x, ops))?;
+        transitions += ops.len() as u64;
+    }
     let ops = first.unwrap();
     let n_change = ops.iter().filter(|o| o.tag() != similar::DiffTag::Equal).count();
     Ok(Out {
@@ -944,6 +966,46 @@ pub fn c03_pair(alg: Algorithm, old: &[u8], new: &[u8]) -> Result<Out, String> {
             "raw {} script deletes {} and inserts {} items; a shortest script has {} (N={} M={} LCS={})",
             alg_name(alg), st.deleted, st.inserted, want, n, m, l
         ));
+    }
+    // minimality does not depend on what else the library does meanwhile or did before: a hook
+    // that re-enters the library from inside its callbacks, and the same diff right after
+    // diffs of other inputs on this thread (longer, shorter, with repeats on one side only)
+    {
+        let mut re = crate::instr::Reentrant::new(crate::instr::Rec::new());
+        let r = subject(|| raw_into(alg, 0, &mut re, old, 0..n, new, 0..m, None));
+        match r {
+            Err(p) => return Err(format!("hook that runs nested diffs from inside its callbacks: panic: {}", p)),
+            Ok(Err(k)) => return Err(format!("hook that runs nested diffs from inside its callbacks: diff returned Err({})", k)),
+            Ok(Ok(())) => {}
+        }
+        let st = validate_stream(&re.inner.calls, old, 0..n, new, 0..m, true)
+            .map_err(|e| format!("hook that runs nested diffs from inside its callbacks: raw stream invalid: {}", e))?;
+        if st.deleted + st.inserted != want {
+            return Err(format!(
+                "raw {} script seen by a hook that runs nested diffs from inside its callbacks deletes {} and inserts {} items; a shortest script has {} (N={} M={} LCS={}) [stream: {}]",
+                alg_name(alg), st.deleted, st.inserted, want, n, m, l, crate::instr::calls_to_string(&re.inner.calls)
+            ));
+        }
+        const EARLIER: [(&[u8], &[u8]); 3] = [(&[0, 0, 1, 1, 2, 2, 0, 0, 1, 1], &[0, 1, 2]), (&[2], &[1, 1, 2, 2, 0, 0, 2, 1]), (&[], &[0])];
+        for (a, b) in EARLIER.iter() {
+            let s = subject(|| {
+                for alg2 in ALGS.iter() {
+                    let mut sink = crate::instr::Rec::new();
+                    let _ = raw_into(*alg2, 0, &mut sink, *a, 0..a.len(), *b, 0..b.len(), None);
+                }
+            });
+            if let Err(p) = s {
+                return Err(format!("earlier diff of {:?} / {:?}: panic: {}", a, b, p));
+            }
+            let s = raw_stream(alg, 0, old, 0..n, new, 0..m)?;
+            let st = validate_stream(&s, old, 0..n, new, 0..m, true).map_err(|e| format!("raw stream invalid: {}", e))?;
+            if st.deleted + st.inserted != want {
+                return Err(format!(
+                    "raw {} script computed right after diffs of {:?} / {:?} on the same thread deletes {} and inserts {} items; a shortest script has {}",
+                    alg_name(alg), a, b, st.deleted, st.inserted, want
+                ));
+            }
+        }
     }
     for &(po, pn) in OFFSETS.iter().skip(1) {
         let fo = embed(old, po, 2, new);
@@ -1107,11 +1169,38 @@ fn c11_once(alg: Algorithm, old: &[u8], new: &[u8], repair: bool, exact: bool) -
         });
         r.map_err(|p| format!("panic: {}", p))
     };
-    for e in [0usize, 2, 4] {
+    for e in [0usize, 2, 4, 5, 6, 7] {
         let ops = run(
             &mut || match e {
                 0 => similar::capture_diff(alg, old, 0..n, new, 0..m),
                 2 => similar::capture_diff_slices(alg, old, new),
+                // the capture pipeline put together by the caller, the sink staying with the
+                // caller (adapters composed by reference / through the finish-suppressing wrapper)
+                5 => {
+                    let mut cap = similar::algorithms::Capture::new();
+                    {
+                        let mut h = similar::algorithms::Compact::new(similar::algorithms::Replace::new(&mut cap), old, new);
+                        similar::algorithms::diff(alg, &mut h, old, 0..n, new, 0..m).unwrap();
+                    }
+                    cap.into_ops()
+                }
+                6 => {
+                    let mut cap = similar::algorithms::Capture::new();
+                    {
+                        let mut h = similar::algorithms::Replace::new(&mut cap);
+                        similar::algorithms::diff(alg, &mut h, old, 0..n, new, 0..m).unwrap();
+                    }
+                    cap.into_ops()
+                }
+                7 => {
+                    let mut h = similar::algorithms::Compact::new(
+                        similar::algorithms::Replace::new(similar::algorithms::NoFinishHook::new(similar::algorithms::Capture::new())),
+                        old,
+                        new,
+                    );
+                    similar::algorithms::diff(alg, &mut h, old, 0..n, new, 0..m).unwrap();
+                    h.into_inner().into_inner().into_inner().into_ops()
+                }
                 _ => {
                     let (o, nn) = (toks(old), toks(new));
                     TextDiff::configure()
@@ -1124,8 +1213,19 @@ fn c11_once(alg: Algorithm, old: &[u8], new: &[u8], repair: bool, exact: bool) -
             &mut swaps,
         )?;
         transitions += ops.len() as u64;
-        validate_ops(&ops, old, 0..n, new, 0..m, exact)
-            .map_err(|x| format!("{}: {} [ops: {:?}]", CAP_ENTRIES[e], x, ops))?;
+        validate_ops(&ops, old, 0..n, new, 0..m, exact).map_err(|x| {
+            format!(
+                "{}: {} [ops: {:?}]",
+                match e {
+                    5 => "algorithms::diff into Compact<Replace<&mut Capture>>",
+                    6 => "algorithms::diff into Replace<&mut Capture>",
+                    7 => "algorithms::diff into Compact<Replace<NoFinishHook<Capture>>>",
+                    _ => CAP_ENTRIES[e],
+                },
+                x,
+                ops
+            )
+        })?;
         if first.is_none() {
             first = Some(ops);
         }
